@@ -4,7 +4,7 @@ use crate::{
     helper_macros::{self, impl_binop_assign_by_taking},
     repr::{Context, Repr, Word},
     round::{Round, Rounded},
-    utils::{digit_len, shl_digits_in_place, split_digits},
+    utils::{digit_len, shl_digits, shl_digits_in_place, split_digits},
 };
 use core::ops::{Div, DivAssign, Rem, RemAssign};
 use dashu_base::{Approximation, DivEuclid, DivRem, DivRemEuclid, Inverse, RemEuclid};
@@ -218,8 +218,22 @@ impl<R: Round> Context<R> {
         assert_finite_operands(&lhs, &rhs);
         assert_limited_precision(self.precision);
 
-        // this method don't deal with the case where lhs significand is too large
-        debug_assert!(rhs.is_zero() || lhs.digits() <= self.precision + rhs.digits());
+        if !rhs.is_zero() && lhs.digits() > self.precision + rhs.digits() {
+            // the integer quotient already has more digits than the precision:
+            // split it and round once, the dropped digits join the remainder
+            let (q, r) = lhs.significand.div_rem(&rhs.significand);
+            let shift = digit_len::<B>(&q) - self.precision;
+            let e = lhs.exponent - rhs.exponent + shift as isize;
+            let (q_hi, q_lo) = split_digits::<B>(q, shift);
+            let num = q_lo * &rhs.significand + r;
+            return if num.is_zero() {
+                Approximation::Exact(Repr::new(q_hi, e))
+            } else {
+                let den = shl_digits::<B>(&rhs.significand, shift);
+                let adjust = R::round_ratio(&q_hi, num, &den);
+                Approximation::Inexact(Repr::new(q_hi + adjust, e), adjust)
+            };
+        }
 
         let (mut q, mut r) = lhs.significand.div_rem(&rhs.significand);
         let mut e = lhs.exponent - rhs.exponent;
